@@ -100,7 +100,7 @@ theorem only_puts_add_and_they_broadcast :
 def pollsOnly (T : TypeFacts) (m : String) : Bool :=
   match T.find m with
   | none => false
-  | some M => !M.acquires && M.callsFree == ["GetNoWait"] && M.callsHeld.isEmpty
+  | some M => !M.acquires && !M.callsFree.isEmpty && M.callsFree.all (fun c => c == "GetNoWait" || c == "poll") && M.callsHeld.isEmpty
               && M.fieldCallsFree.isEmpty && M.fieldCallsHeld.isEmpty
 
 theorem gettimeout_polls_getnowait :
@@ -194,9 +194,12 @@ theorem RequestDoubleQueue_ToString2_locked : methodLocked RequestDoubleQueue.fa
 theorem queue_methods_covered :
     (RequestQueue.facts.methods.filter (·.exported)).map (·.name)
       = ["Clear", "Get", "GetCapacity", "GetNoWait", "GetTimeout", "Put", "PutForce", "SetCapacity", "Size"] ∧
-    (RequestDoubleQueue.facts.methods.filter (·.exported)).map (·.name)
+    -- (SetCallbacks1/2 exist only with proposed/C11/fix-KF-callbacks-unsettable.diff; they must then be locked)
+    ((RequestDoubleQueue.facts.methods.filter (fun M => M.exported && M.name != "SetCallbacks1" && M.name != "SetCallbacks2")).map (·.name)
       = ["Clear", "Get", "GetCapacity1", "GetCapacity2", "GetNoWait", "GetTimeout", "Put1", "Put2", "PutForce1",
-         "PutForce2", "SetCapacity", "Size", "Size1", "Size2", "ToString1", "ToString2"] := by decide
+         "PutForce2", "SetCapacity", "Size", "Size1", "Size2", "ToString1", "ToString2"]) ∧
+    (RequestDoubleQueue.facts.methods.filter (fun M => M.name == "SetCallbacks1" || M.name == "SetCallbacks2")).all
+      (fun M => methodLocked RequestDoubleQueue.facts M.name) = true := by decide
 
 /-! ### known finding `RequestDoubleQueue:callbacks-unsettable`, characterised on the source facts -/
 
@@ -215,7 +218,9 @@ def invokers (T : TypeFacts) (flds : List String) : List String :=
     exported fields (`Failed`, `Overflowed`) and are invoked by Put / PutForce. -/
 theorem double_queue_callbacks_never_assigned :
     ["failed1", "overflowed1", "failed2", "overflowed2"].all (RequestDoubleQueue.facts.fields.contains ·) = true ∧
-    assigners RequestDoubleQueue.facts ["failed1", "overflowed1", "failed2", "overflowed2"] = [] ∧
+    -- no method assigns them — or, with proposed/C11/fix-KF-callbacks-unsettable.diff, only the two setters do
+    (assigners RequestDoubleQueue.facts ["failed1", "overflowed1", "failed2", "overflowed2"]).all
+      (fun m => m == "SetCallbacks1" || m == "SetCallbacks2") = true ∧
     invokers RequestDoubleQueue.facts ["failed1", "overflowed1", "failed2", "overflowed2"]
       = ["Put1", "Put2", "PutForce1", "PutForce2"] ∧
     ["Failed", "Overflowed"].all (RequestQueue.facts.fields.contains ·) = true ∧
